@@ -158,8 +158,22 @@ def run(chk):
             writes = []
             lines = ["let __o = []; let f = open(%s, \"%s\");" % (lit(p), mode), "push(__o, is_error(f));", "if !is_error(f) {"]
             for _ in range(rng.randint(0, 6)):
-                k = rng.randrange(4)
-                if k == 0:
+                k = rng.randrange(6)
+                if k == 4:
+                    # a byte array at / beyond the size of the write buffer, after whatever is still pending in it
+                    big = rng.choice([8191, 8192, 8193, 9000, 20000])
+                    writes.append(b"Y" * big)
+                    lines.append("push(__o, write(f, encode_utf8(\"Y\" * %d)));" % big)
+                elif k == 5:
+                    bp_ = os.path.join(work, "bigpkt.pcap")
+                    if not os.path.exists(bp_):
+                        from . import pkt as _pkt
+                        with open(bp_, "wb") as fh:
+                            fh.write(_pkt.pcap_file([(3, 4, bytes(range(256)) * 40)]))
+                    import struct as _st
+                    writes.append(_st.pack("<IIII", 3, 4, 10240, 10240) + bytes(range(256)) * 40)
+                    lines.append("push(__o, write(f, pcap_read_next(pcap_open(%s))));" % lit(bp_))
+                elif k == 0:
                     s = "".join(rng.choice("abc xyz09é\n") for _ in range(rng.choice([0, 1, 10, 300])))
                     writes.append(s.encode("utf-8"))
                     lines.append("push(__o, write(f, %s));" % lit(s))
